@@ -19,9 +19,9 @@ import (
 // (DESIGN §6 C12).
 
 type c12Case struct {
-	Kind   string   `json:"kind"`    // seq | conc
-	OptSet string   `json:"optset"`  // none | ext | filename | dir | update | json | all
-	Seq    []string `json:"seq"`     // seq: APIs called in order through ONE Config; conc: one API per thread
+	Kind   string   `json:"kind"`   // seq | conc
+	OptSet string   `json:"optset"` // none | ext | filename | dir | update | json | all
+	Seq    []string `json:"seq"`    // seq: APIs called in order through ONE Config; conc: one API per thread
 	Bound  int      `json:"bound,omitempty"`
 	Sched  []int    `json:"schedule,omitempty"`
 }
